@@ -495,7 +495,11 @@ func TestC12(t *testing.T) {
 			continue
 		}
 		run.Journal(id, "")
-		for _, r := range runC12RealBurst(run, i, 100+50*(i%3)) {
+		nb := 100 + 50*(i%3)
+		if i == 2 {
+			nb = 1000 // ~1.2 MB
+		}
+		for _, r := range runC12RealBurst(run, i, nb) {
 			run.Violation(id, r.Key, r.What, nil)
 		}
 	}
